@@ -529,6 +529,7 @@ pub fn disallow_oid(w: &Rc<World>, oid: usize) {
 pub fn do_subscribe(w: &Rc<World>, oid: usize, h: HandlerSpec) {
     let Some(c) = w.live_clone(oid, 0) else { return skipped(w, "no handle") };
     let sid = w.subs.borrow().len();
+    w.api.set("subscribe");
     let res = {
         let obs = w.obs.borrow();
         match obs[oid].clones[c].as_ref().unwrap() {
@@ -537,6 +538,7 @@ pub fn do_subscribe(w: &Rc<World>, oid: usize, h: HandlerSpec) {
             ObsH::Q(o) => o.try_subscribe(make_handler::<Trip>(w, sid, oid, h)),
         }
     };
+    w.api.set("");
     match res {
         Ok(token) => {
             w.subs.borrow_mut().push(SubEntry { oid, token });
@@ -555,10 +557,12 @@ pub fn do_unsub(w: &Rc<World>, obs: usize, sub: usize) {
 pub fn unsub_via(w: &Rc<World>, oid: usize, sid: usize) {
     let Some(c) = w.live_clone(oid, 0) else { return skipped(w, "no handle") };
     let token = w.subs.borrow()[sid].token;
+    w.api.set("unsubscribe");
     let res = {
         let obs = w.obs.borrow();
         obs[oid].clones[c].as_ref().unwrap().unsubscribe(token)
     };
+    w.api.set("");
     act(w, Act::Unsub { via_oid: oid, sid, res });
 }
 
@@ -568,7 +572,9 @@ pub fn do_state_unsub(w: &Rc<World>, sub: usize) {
     if n == 0 { return skipped(w, "no subscription") }
     let sid = sub % n;
     let token = w.subs.borrow()[sid].token;
+    w.api.set("unsubscribe");
     st.unsubscribe(token);
+    w.api.set("");
     act(w, Act::StateUnsub { sid });
 }
 
